@@ -36,8 +36,9 @@ Record oinst := mkOI {
 #[export] Instance eta_oinst : Settable _ :=
   settable! mkOI <o_nm; o_idx; o_launches; o_alive; o_code; o_endst; o_ended; o_started; o_stopreq; o_logok; o_succ; o_depfail; o_elapsed; o_sigs; o_insnap; o_sd_victim; o_byapi; o_gone; o_commit>.
 
-Record oname := mkON { r_status : status; r_code : Z; r_ready : bool (* Health was Ready at some time *) }.
-#[export] Instance eta_oname : Settable _ := settable! mkON <r_status; r_code; r_ready>.
+Record oname := mkON { r_status : status; r_code : Z; r_ready : bool (* Health was Ready at some time *);
+                       r_restarts : nat (* reported restart counter of the name *) }.
+#[export] Instance eta_oname : Settable _ := settable! mkON <r_status; r_code; r_ready; r_restarts>.
 
 Record obs := mkObs {
   oi : amap oinst;
@@ -68,14 +69,14 @@ Record obs := mkObs {
   settable! mkObs <oi; onm; o_cnt; o_th; o_api; o_sd_done; o_sd_snap; o_sd_cur; o_triggers; o_run_ret; o_after_sd_spawn; o_stopstage; o_stopinst; o_instop; o_spawning; o_api_sd_first; w_commit; w_late; w_sdspawn; w_dup; w_sdlag; w_zombie; w_stale>.
 
 Definition obs0 (cs : amap pconf) : obs :=
-  mkObs [] (map (fun p => (fst p, mkON (if deferred (snd p) then SDisabled else SPending) 0 false)) cs)
+  mkObs [] (map (fun p => (fst p, mkON (if deferred (snd p) then SDisabled else SPending) 0 false 0)) cs)
         0 [] [] 0 [] [] [] None [] [] [] [] false false false false false false false false false.
 
 Definition oi_get (o : obs) (i : iid) : oinst :=
   match get i (oi o) with Some x => x
   | None => mkOI 0%N 0 0 false None None false false false false false false false 0 false false false false false end.
 Definition on_get (o : obs) (n : name) : oname :=
-  match get n (onm o) with Some x => x | None => mkON SPending 0 false end.
+  match get n (onm o) with Some x => x | None => mkON SPending 0 false 0 end.
 Definition oi_upd (i : iid) (f : oinst -> oinst) (o : obs) : obs :=
   match get i (oi o) with Some x => o <| oi := set i (f x) (oi o) |> | None => o end.
 Definition on_upd (n : name) (f : oname -> oname) (o : obs) : obs :=
@@ -144,6 +145,7 @@ Definition obs_step (cs : amap pconf) (o : obs) (te : tid * event) : obs :=
     | ELaunch false, Some i => oi_upd i (fun x => x <| o_commit := false |>) o
     | ECmdExit i c, _ => oi_upd i (fun x => x <| o_alive := false |> <| o_code := Some c |> <| o_sd_victim := o_insnap x |>) o
     | EExitCode c, Some i => on_upd (o_nm (oi_get o i)) (fun r => r <| r_code := c |>) o
+    | EBackoffWait _, Some i => on_upd (o_nm (oi_get o i)) (fun r => r <| r_restarts := S (r_restarts r) |>) o
     | EBackoffElapsed, Some i =>
         oi_upd i (fun x => x <| o_elapsed := true |> <| o_commit := true |>) (note_late_commit o i)
     | EProcEnd i s0, _ =>
@@ -235,8 +237,9 @@ Definition mon_C02 (cs : amap pconf) (o : obs) (te : tid * event) : bool :=
       (* the instance gave up: only legitimate when the policy does not ask for a relaunch *)
       let x := oi_get o i in
       let c := conf_of cs (o_nm x) in
-      (* relaunches are counted per replica name (the counter survives a manual restart) *)
-      let relaunches := fold_left (fun acc y => if N.eqb (o_nm y) (o_nm x) then acc + pred (o_launches y) else acc) (vals (oi o)) 0 in
+      (* restarts are counted per replica name, when the back-off begins (the reported Restarts counter;
+         it survives a manual restart and includes a back-off that a stop interrupted) *)
+      let relaunches := r_restarts (on_get o (o_nm x)) in
       match o_code x with
       | Some ec => negb (policy_allows (pol c) ec && (Nat.eqb (maxr c) 0 || Nat.ltb relaunches (maxr c))
                          && negb (o_stopreq x))
